@@ -4,6 +4,7 @@ import (
 	"crypto/sha256"
 	"fmt"
 	"math/big"
+	"os"
 	"sort"
 
 	"github.com/taurusgroup/multi-party-sig/pkg/ecdsa"
@@ -167,6 +168,14 @@ func DrawScenario(c *fw.Ctx, o ScenarioOpts) *Scenario {
 		}
 	}
 	s.Kind = kinds[c.S.Draw(len(kinds), "kind")]
+	// VERIF_FORCE_KIND restricts targeted campaigns to one session kind (debugging / confirmation runs)
+	if fk := os.Getenv("VERIF_FORCE_KIND"); fk != "" {
+		for _, k := range []Kind{KKeygen, KRefresh, KSign, KPresign, KPresignFull, KPresignOnline} {
+			if k.String() == fk && (k < KPresign || s.Proto == CMP) {
+				s.Kind = k
+			}
+		}
+	}
 	maxN := o.MaxN
 	if s.Proto == CMP && maxN > 3 {
 		maxN = 3
